@@ -23,6 +23,7 @@ type Job struct {
 	R    *C03Case  `json:"r,omitempty"`
 	C13  *C13Case  `json:"c13,omitempty"`
 	C12  *C12Case  `json:"c12,omitempty"`
+	C06  *C06Case  `json:"c06,omitempty"`
 }
 
 type C17Case struct {
@@ -72,6 +73,12 @@ func (j Job) run() (digest string, err error) {
 			return "", e
 		}
 		h.Write([]byte(fmt.Sprint(labels)))
+	case "c06":
+		labels, _, e := checkC06(*j.C06)
+		if e != nil {
+			return "", e
+		}
+		h.Write([]byte(fmt.Sprint(labels)))
 	case "c12":
 		labels, _, e := checkC12(*j.C12)
 		if e != nil {
@@ -83,7 +90,30 @@ func (j Job) run() (digest string, err error) {
 }
 
 func drawJob(t *rapid.T) Job {
-	switch rapid.IntRange(0, 9).Draw(t, "jobkind") {
+	switch rapid.IntRange(0, 12).Draw(t, "jobkind") {
+	case 10, 11, 12:
+		// container round trips with non-ASCII Latin-1 header strings and zlib dictionaries
+		c := drawC06(t)
+		if c.M.Data.Len() > 20<<10 {
+			c.M.Data = genText(2000, 7)
+			c.M.Ops = nil
+		}
+		if c.Pkg == "gzip" {
+			c.M.Hdr = &GzHdr{Name: "näme-" + rapid.StringMatching(`[¡-ÿ]{1,6}`).Draw(t, "lname"), Comment: rapid.StringMatching(`[¡-ÿ]{0,6}`).Draw(t, "lcomment")}
+		} else if c.M.Dict == nil || rapid.Bool().Draw(t, "newdict") {
+			d := gen.Recipe{Segs: []gen.Seg{{Kind: "text", N: rapid.IntRange(1, 300).Draw(t, "dlen"), Seed: rapid.Uint64Range(0, 50).Draw(t, "dseed")}}}
+			c.M.Dict = &d
+			if c.Reuse != nil {
+				c.Reuse.Dict = &d
+			}
+		}
+		if c.Pkg == "zlib" && c.M.Dict != nil && stdZlibDictBroken(c.M.Level, recipeBytes(c.M.Dict), c.M.Data.Bytes(), c.M.Ops) {
+			c.M.Dict = nil
+			if c.Reuse != nil {
+				c.Reuse.Dict = nil
+			}
+		}
+		return Job{Kind: "c06", C06: &c}
 	case 0, 1, 2:
 		w := drawC18W(t)
 		if w.Data.Len() > 60<<10 {
@@ -122,14 +152,48 @@ func drawJob(t *rapid.T) Job {
 	}
 }
 
+// drawContainerJob draws a small container round trip of one family: gzip members with non-ASCII
+// Latin-1 header strings, or zlib streams with a preset dictionary (a different one per job).
+func drawContainerJob(t *rapid.T, pkg string, i int) Job {
+	c := C06Case{Pkg: pkg, Dir: rapid.SampledFrom([]string{"f2s", "f2f", "s2f"}).Draw(t, "dir"), Reads: []int{4096}}
+	c.M = Member{Enc: "fast", Level: rapid.SampledFrom([]int{-2, -1, 1, 2, 6}).Draw(t, "level"), Data: genText(rapid.IntRange(1, 3000).Draw(t, "n"), uint64(i))}
+	if c.Dir == "s2f" {
+		c.M.Enc = "std"
+	}
+	if pkg == "gzip" {
+		c.M.Hdr = &GzHdr{Name: rapid.StringMatching(`[¡-ÿ]{1,40}`).Draw(t, "lname"), Comment: rapid.StringMatching(`[¡-ÿ]{0,40}`).Draw(t, "lcomment")}
+	} else {
+		d := gen.Recipe{Segs: []gen.Seg{{Kind: "text", N: 20 + 13*i, Seed: uint64(100 + i)}}}
+		c.M.Dict = &d
+		if stdZlibDictBroken(c.M.Level, recipeBytes(c.M.Dict), c.M.Data.Bytes(), c.M.Ops) {
+			c.M.Dict = nil
+		}
+	}
+	return Job{Kind: "c06", C06: &c}
+}
+
 func drawC17(t *rapid.T) C17Case {
 	var c C17Case
 	n := rapid.IntRange(2, 12).Draw(t, "njobs")
+	theme := rapid.IntRange(0, 5).Draw(t, "theme")
 	for i := 0; i < n; i++ {
-		c.Jobs = append(c.Jobs, drawJob(t))
+		switch theme {
+		case 1:
+			c.Jobs = append(c.Jobs, drawContainerJob(t, "gzip", i))
+		case 2:
+			c.Jobs = append(c.Jobs, drawContainerJob(t, "zlib", i))
+		default:
+			c.Jobs = append(c.Jobs, drawJob(t))
+		}
+	}
+	if theme == 1 || theme == 2 {
+		// one family only: the jobs are small, so run more rounds to get real overlap on whatever they share
+		c.Rounds = 12
 	}
 	c.Procs = rapid.SampledFrom([]int{1, 2, 4, 16}).Draw(t, "procs")
-	c.Rounds = 3
+	if c.Rounds == 0 {
+		c.Rounds = 3
+	}
 	return c
 }
 
@@ -181,7 +245,7 @@ func checkC17(c C17Case) (labels []string, nontrivial bool, execs int, err error
 	for k := range kinds {
 		labels = append(labels, "has:"+k)
 	}
-	return labels, len(c.Jobs) >= 2 && len(kinds) >= 2, execs, nil
+	return labels, len(c.Jobs) >= 2 && (len(kinds) >= 2 || c.Rounds > 3), execs, nil
 }
 
 func TestC17(t *testing.T) {
